@@ -9,7 +9,8 @@ from ..tlaparse import parse_state, parse_dump
 LEVEL = 'model_checking'
 TLA = os.path.join(SPEC, 'meanstress', 'MC_Haigh.tla')
 DIAG = {'g0': ('g', 0.3, 0.1), 'g1': ('g', 0.5, 0.5), 'g2': ('g', 0.0, 0.0), 'g3': ('g', 0.25, 0.0),
-        'f0': ('f', 0.5, 0.3, 0.2, 0.1, 0.0, 0.25, 0.5), 'f1': ('f', 0.3, 0.2, 0.1, 0.1, 0.1, 0.5, 0.75)}
+        'f0': ('f', 0.5, 0.3, 0.2, 0.1, 0.0, 0.25, 0.5), 'f1': ('f', 0.3, 0.2, 0.1, 0.1, 0.1, 0.5, 0.75),
+        'f2': ('f', 0.3, 0.2, 0.1, 0.1, 0.5, 0.25, 0.5)}      # f2: steep compression segment (M4 = 1/2 > 1/3)
 GOAL = {'ninf': -np.inf, 'm3': -3.0, 'm1': -1.0, 'mh': -0.5, 'z': 0.0, 'q': 0.25, 'h': 0.5, 't': 0.75, 'two': 2.0, 'five': 5.0}
 
 
@@ -318,6 +319,9 @@ def check_matrix(chk, rng, quick):
                 chk.violation('transformation of a matrix with a node_id level raised %r' % ex, case, part='matrix')
                 continue
             ok = True
+            if 'node_id' not in list(out.index.names) or set(out.index.get_level_values('node_id')) != set(nodes):
+                chk.violation('transformed matrix lost (or changed) the node_id level of the matrix it was given', case, sorted(nodes), list(out.index.names), part='matrix')
+                continue
             for nid, cnt in nodes.items():
                 o = out.xs(nid, level='node_id')
                 o = o.groupby(level='range', sort=False).sum() if isinstance(o.index, pd.MultiIndex) else o
